@@ -62,7 +62,7 @@ class C12(Check):
 
     def cases(self, tier, seed):
         q = tier == "quick"
-        for i in range(90 if q else 3000):
+        for i in range(240 if q else 6000):
             yield dict(kind="centres", seed=seed * 100003 + i, order=["given", "reversed", "shuffled"][i % 3],
                        weighted=bool(i % 2), single=bool(i % 5 == 0), workers=1)
         for i in range(18 if q else 400):
@@ -71,7 +71,7 @@ class C12(Check):
             yield dict(kind="index", seed=seed * 1009 + i, weighted=bool(i % 2))
         for i in range(12 if q else 200):
             yield dict(kind="generated", seed=seed * 1013 + i)
-        for i in range(40 if q else 1000):
+        for i in range(96 if q else 2400):
             yield dict(kind="refusal", seed=seed * 1019 + i, f=[0.0, 0.2, 1.5, 3.0, 10.0, "keys", "keys_same_len", "single_object"][i % 8])
 
     def setup_worker(self):
